@@ -818,6 +818,13 @@ class PopAd(Base):
     def extra_counts(self, case, st, free):
         nh = tuple(int(v) for v in st.obj.n_hierarchical_parameters(self.n_ids))
         case.equal(nh, (self.nb, len(free)), 'n_hierarchical_parameters(n_ids)')
+        # asked about a cohort of another size (planning a study, a likelihood under construction): the unfixed model's
+        # answer for that size, less the fixed parameters
+        for n2 in (self.n_ids + 2, 1):
+            a, b = (int(v) for v in self.tw.n_hierarchical_parameters(n2))
+            case.equal(tuple(int(v) for v in st.obj.n_hierarchical_parameters(n2)), (a, b - len(st.fixed)),
+                       'n_hierarchical_parameters(%d) of a model configured for %d individuals with %d fixed parameter(s)'
+                       % (n2, self.n_ids, len(st.fixed)))
         case.equal(int(st.obj.n_dim()), ref.pop_n_dim(self.pop), 'n_dim()')
         case.equal(int(st.obj.n_hierarchical_dim()), len(self.hd), 'n_hierarchical_dim()')
         case.equal(int(st.obj.n_covariates()), ref.pop_n_cov(self.pop), 'n_covariates()')
